@@ -10,6 +10,7 @@ Definition bytes := list N.
 
 Definition bs (s : String.string) : bytes :=
   map N_of_ascii (list_ascii_of_string s).
+Arguments bs s%string.
 
 Fixpoint bytes_eqb (a b : bytes) : bool :=
   match a, b with
@@ -137,3 +138,28 @@ Definition Z_to_dec (z : Z) : bytes :=
   end.
 
 Definition nat_to_dec (n : nat) : bytes := N_to_dec (N.of_nat n).
+
+(* ---------- fmt.Sprintf for the verbs used in fail.go *)
+Definition fmt_verb (c : N) : bool := (c =? 115) || (c =? 100) || (c =? 84) || (c =? 118).
+
+Fixpoint fmtb (t : bytes) (args : list bytes) : bytes :=
+  match t with
+  | [] => []
+  | c0 :: t0 =>
+    if c0 =? 37 then
+      match t0 with
+      | c :: t' =>
+        if fmt_verb c then
+          match args with
+          | a :: args' => a ++ fmtb t' args'
+          | [] => 37 :: fmtb t0 args
+          end
+        else 37 :: fmtb t0 args
+      | [] => [37]
+      end
+    else c0 :: fmtb t0 args
+  end.
+
+Definition fmt (t : String.string) (args : list bytes) : bytes := fmtb (bs t) args.
+Arguments fmt t%string args.
+
